@@ -7,7 +7,7 @@ import subprocess
 VERIF = os.path.dirname(os.path.dirname(os.path.abspath(__file__)))
 
 ENGINE_NOTE = ("Trusted base: the harness' reference model / oracle code, rustc, the host tmpfs for PhysicalFS. Holds only for the "
-               "executions produced (finite universe of <=84 paths, depth<=3, bounded histories, seeded generators); nothing is claimed "
+               "executions produced (finite universes of at most a few hundred paths, depth<=4, bounded histories, seeded generators); nothing is claimed "
                "about histories, inputs or configurations not generated. Known findings listed in known_findings.json are reported as "
                "KNOWN-FINDING lines and do not fail the check.")
 
@@ -78,6 +78,26 @@ P = {
 
 NOT_YET = {
 }
+
+# additions made after the first version of the table (rounds 5-8 of the seeded-change validation)
+EXTRA = {
+ "C01": "A memory-only pass (MemoryFS, altroots over it) adds thousands of cheap histories; one universe in three is built around a name family (a / a.b / 'a b' / a-1 ...: names whose text extends a sibling's).",
+ "C02": "Write sessions include seeks, in-place overwrites and intermediate flushes (append sessions stay seek-free: O_APPEND differs by design).",
+ "C04": "Contents include shaped data (zero runs at block boundaries, repeated blocks, block-structured multiples of 512..65536 bytes); after a copy, a further write session on either name must leave the other file untouched.",
+ "C09": "Plus a directed probe of the marker-naming clash of sibling pairs (n, n_wo) (known finding KF3).",
+ "C10": "Plus a probe that addresses the bookkeeping itself (/.whiteout, marker directories, marker files) after removals and then calls mutators on those addresses: nothing of it may be observable and nothing removed may come back (known finding KF4).",
+ "C11": "Trees use name families (string-extension siblings) two times in three, and names freed by an earlier removal or move of the same case are re-used as destinations.",
+ "C12": "The complete join sweep of C06 also runs here: a trailing-slash join that is accepted or classified as anything but invalid-path is reported under C12.",
+ "C13": "Includes AsyncPhysicalFS over the prepared hostile directories, sync and async walks polled to the end while listed entries are removed, and the async read-handle scripts.",
+ "C15": "Plus: write handles kept open in both worlds across rug-pulls and second writers (open, write 0..5 bytes, flush, rug-pull, close; snapshots compared after every step); async read handles against std::io::Cursor over generated read/seek scripts (async physical files included); physical transfer differential.",
+ "C17": "States before the threads start: nothing; the same names created and removed again; some requested prefixes already existing; prefixes existing in the lowest overlay layer only. A thread that does not return within 1.5 s is only a deadlock suspicion: the decision list is replayed with a 20 s limit before anything is reported.",
+ "C16": "A thread that does not return within 1.5 s is only a deadlock suspicion: the decision list is replayed with a 20 s limit before a deadlock is reported.",
+ "C18": "Plus generated embedded trees (hand-written RustEmbed implementation over a per-thread table, mirrored on disk for the PhysicalFS side; names that recur as text inside earlier components); the path set of every tree is enumerated completely, the trees themselves are a sample.",
+ "C19": "The same setter monitor runs through the async port (AsyncMemoryFS: not-supported and nothing changes; AsyncPhysicalFS and adapters: round trip) with injected Pending results.",
+ "C20": "One case in four on overlays starts from a directed pre-state: a lower-layer entry is removed through the overlay and the faulted operation re-creates at that path.",
+}
+for _k, _v in EXTRA.items():
+    P[_k]["text"] += " " + _v
 
 ORDER = ["C%02d" % i for i in range(1, 21)]
 
